@@ -34,8 +34,8 @@ ASSUMPTIONS = ["a rewrite is cosmetic iff yaml.safe_load of both texts is type-s
 REQUIRED_PROBES = ["reused_pipeline_second_traced_run_with_sweep", "history_contains_failing_run", "fresh_interpreter_other_hashseed",
                    "world_pair_differs_in_cwd", "rewrite_flow_style", "rewrite_float_spelling", "rewrite_expression_commuted", "with_run_space"]
 CONFIG = {
-    "quick": {"runs": 320, "budget_s": 200, "timeout_s": 240},
-    "thorough": {"runs": 12000, "budget_s": 1700, "timeout_s": 240},
+    "quick": {"runs": 640, "budget_s": 240, "timeout_s": 240},
+    "thorough": {"runs": 20000, "budget_s": 1700, "timeout_s": 240},
     "shrink_s": 60.0,
 }
 HASHSEED_INVARIANT_LOG = True
@@ -314,7 +314,7 @@ def _fresh_interpreter(sc: dict) -> dict:
     other_cwd = os.path.join(scratch_root(), "c04_cwd")       # the fresh interpreter also STARTS (imports) in another directory
     os.makedirs(other_cwd, exist_ok=True)
     p = subprocess.run([sys.executable, "-m", "svsim.props.c04", "child"], input=json.dumps(sc), env=env, cwd=other_cwd,
-                       capture_output=True, text=True, timeout=200)
+                       capture_output=True, text=True)
     for line in p.stdout.splitlines():
         if line.startswith("RECORD "):
             return json.loads(line[7:])
